@@ -31,21 +31,21 @@ var c16Files = Files{
 	"s2.vuego": `<div><slot></slot></div><section><slot></slot></section>`,
 	"sf.vuego": `<ul><li v-for="i in three"><slot></slot></li></ul>`,
 
-	"p_top.vuego":     `<b v-once>O1</b><p>x</p><b v-once>O2</b><b v-once>O3</b>`,
-	"p_for.vuego":     `<div v-for="i in three"><b v-once>O1</b><i>{{ i }}</i><u v-once>O2</u></div>`,
-	"p_forself.vuego": `<b v-for="i in three" v-once>O1</b><i v-for="j in three">I</i>`,
-	"p_inc1.vuego":    `<template include="a.vuego"></template>`,
-	"p_inc2.vuego":    `<template include="a.vuego"></template><template include="a.vuego"></template>`,
-	"p_inc3.vuego":    `<template include="a.vuego"></template><p v-once>O1</p><template include="a.vuego"></template><template include="a.vuego"></template>`,
-	"p_ab.vuego":      `<template include="a.vuego"></template><template include="b.vuego"></template><template include="a.vuego"></template><b v-once>O1</b>`,
-	"p_incfor.vuego":  `<div v-for="i in three"><template include="a.vuego"></template></div>`,
-	"p_nested.vuego":  `<template include="ac.vuego"></template><template include="ac.vuego"></template><template include="c.vuego"></template>`,
-	"p_slot1.vuego":   `<template include="s1.vuego"><b v-once>OS</b></template><b v-once>O1</b>`,
-	"p_slot2.vuego":   `<template include="s2.vuego"><b v-once>OS</b></template>`,
-	"p_slotfor.vuego": `<template include="sf.vuego"><template v-slot><b v-once>OS</b></template></template>`,
-	"p_if.vuego":      `<div v-if="t"><b v-once>O1</b></div><div v-else><b v-once>O2</b></div><b v-if="t" v-once>O3</b>`,
-	"p_lay.vuego":     "---\nlayout: once_lay\n---\n<b v-once>O1</b><template include=\"a.vuego\"></template><template include=\"a.vuego\"></template>",
-	"layouts/once_lay.vuego": "---\nlayout: once_outer\n---\n<main><b v-once>OL</b><template include=\"a.vuego\"></template><div v-for=\"i in three\"><u v-once>OL2</u></div><section v-html=\"content\"></section></main>",
+	"p_top.vuego":              `<b v-once>O1</b><p>x</p><b v-once>O2</b><b v-once>O3</b>`,
+	"p_for.vuego":              `<div v-for="i in three"><b v-once>O1</b><i>{{ i }}</i><u v-once>O2</u></div>`,
+	"p_forself.vuego":          `<b v-for="i in three" v-once>O1</b><i v-for="j in three">I</i>`,
+	"p_inc1.vuego":             `<template include="a.vuego"></template>`,
+	"p_inc2.vuego":             `<template include="a.vuego"></template><template include="a.vuego"></template>`,
+	"p_inc3.vuego":             `<template include="a.vuego"></template><p v-once>O1</p><template include="a.vuego"></template><template include="a.vuego"></template>`,
+	"p_ab.vuego":               `<template include="a.vuego"></template><template include="b.vuego"></template><template include="a.vuego"></template><b v-once>O1</b>`,
+	"p_incfor.vuego":           `<div v-for="i in three"><template include="a.vuego"></template></div>`,
+	"p_nested.vuego":           `<template include="ac.vuego"></template><template include="ac.vuego"></template><template include="c.vuego"></template>`,
+	"p_slot1.vuego":            `<template include="s1.vuego"><b v-once>OS</b></template><b v-once>O1</b>`,
+	"p_slot2.vuego":            `<template include="s2.vuego"><b v-once>OS</b></template>`,
+	"p_slotfor.vuego":          `<template include="sf.vuego"><template v-slot><b v-once>OS</b></template></template>`,
+	"p_if.vuego":               `<div v-if="t"><b v-once>O1</b></div><div v-else><b v-once>O2</b></div><b v-if="t" v-once>O3</b>`,
+	"p_lay.vuego":              "---\nlayout: once_lay\n---\n<b v-once>O1</b><template include=\"a.vuego\"></template><template include=\"a.vuego\"></template>",
+	"layouts/once_lay.vuego":   "---\nlayout: once_outer\n---\n<main><b v-once>OL</b><template include=\"a.vuego\"></template><div v-for=\"i in three\"><u v-once>OL2</u></div><section v-html=\"content\"></section></main>",
 	"layouts/once_outer.vuego": "<html><body><b v-once>OO</b><template include=\"a.vuego\"></template><template include=\"a.vuego\"></template><div v-html=\"content\"></div></body></html>",
 }
 
